@@ -296,11 +296,12 @@ Definition cfg_of (k : kind) : config := {| c_kind := k; c_connected := true; c_
 Definition plain (steps : list step) : script :=
   {| sc_swd_err := false; sc_write_err := false; sc_flush_err := false; sc_steps := steps |}.
 Definition rq (rtu : bool) (r : req) : creq := {| q_rtu := rtu; q_tid := 7; q_req := r |}.
-(* the reply delivered in two reads, cut after [cut] bytes *)
-Definition two (reply : list N) (cut : nat) : list (nat * list N) :=
-  [(0%nat, firstn cut reply); (1%nat, skipn cut reply)].
+(* the reply delivered in two reads, cut after [cut] bytes; the second, after one empty read,
+   arrives together with the read deadline error *)
+Definition two (reply : list N) (cut : nat) : list chunk :=
+  [(0%nat, false, firstn cut reply); (1%nat, true, skipn cut reply)].
 Definition do_two (k : kind) (q : creq) (p : resp) (cut : nat) : outcome :=
   fst (client_do (cfg_of k) (plain (script_of (two (reply_bytes q p) cut))) (Some q)).
 Definition do_whole_then_stall (k : kind) (q : creq) (p : resp) : outcome :=
   fst (client_do (cfg_of k)
-         (plain (script_of [(0%nat, reply_bytes q p)] ++ repeat quiet 3 ++ [timer_step false RTimeout])) (Some q)).
+         (plain (script_of [(0%nat, false, reply_bytes q p)] ++ repeat quiet 3 ++ [timer_step false (RTimeout [])])) (Some q)).
